@@ -935,6 +935,14 @@ class Interp:
                     return Const(a.v % b.v)
             except ZeroDivisionError:
                 raise AbstractRaise("ZeroDivisionError", node)
+        if isinstance(op, ast.Mult):
+            for x, y in ((a, b), (b, a)):
+                if isinstance(x, (ListObj, TupleV)) and isinstance(y, Const) and isinstance(y.v, int) and not isinstance(y.v, bool) \
+                        and not getattr(x, "has_prefix", False):
+                    items = list(x.items) * max(y.v, 0)
+                    return ListObj(items) if isinstance(x, ListObj) else TupleV(items)
+                if isinstance(x, Const) and isinstance(x.v, str) and isinstance(y, Const) and isinstance(y.v, int) and not isinstance(y.v, bool):
+                    return Const(x.v * y.v)
         if isinstance(op, ast.Mod) and isinstance(a, Const) and isinstance(a.v, str):
             vals = b.items if isinstance(b, TupleV) else [b]
             if all(isinstance(x, Const) for x in vals):
@@ -1144,11 +1152,7 @@ class Interp:
             return Builtin("dict.fromkeys")
         if isinstance(obj, Builtin) and obj.name == "chain" and attr == "from_iterable":
             return Opaque("module:itertools.chain.from_iterable")
-        if isinstance(obj, SetObj) and attr in ("add", "pop", "discard", "remove", "update", "union", "intersection", "difference"):
-            return BoundMethod(obj, attr)
-        if isinstance(obj, ListObj) and attr in ("append", "pop", "extend", "insert", "sort", "reverse", "clear", "remove"):
-            return BoundMethod(obj, attr)
-        if isinstance(obj, DictObj) and attr in ("get", "keys", "values", "items", "update", "pop", "setdefault", "clear"):
+        if isinstance(obj, (SetObj, ListObj, DictObj)) and not attr.startswith("__"):
             return BoundMethod(obj, attr)
         return self.w.load_attr(self, obj, attr, node)
 
